@@ -475,7 +475,8 @@ def matchfile_from_alignment(
 
     # sort notes by score onset (performed insertions are sorted
     # according to the interpolation map
-    sort_stime = np.array(sort_stime)
+    # (an alignment without entries gives no lines)
+    sort_stime = np.array(sort_stime, dtype=float).reshape(-1, 2)
     sort_stime_idx = np.lexsort((sort_stime[:, 1], sort_stime[:, 0]))
     note_lines = np.array(note_lines)[sort_stime_idx]
 
